@@ -252,10 +252,11 @@ def gen_op(rng, ctxs, vals, allow_reenter):
         op["reenter_at"] = rng.randrange(len(effects))
         inner = gen_op(rng, ctxs, vals, allow_reenter=False)
         tries = 0
-        while (inner["op"] not in ("eval", "set", "get") or inner.get("terminal") in LOOP_TERMINALS + REC_TERMINALS) and tries < 20:
+        slow = LOOP_TERMINALS + REC_TERMINALS + ("nested_eval_loop",)   # a nested op that burns the outer eval's own budget
+        while (inner["op"] not in ("eval", "set", "get") or inner.get("terminal") in slow) and tries < 20:
             inner = gen_op(rng, ctxs, vals, allow_reenter=False)
             tries += 1
-        if inner["op"] in ("eval", "set", "get") and inner.get("terminal") not in LOOP_TERMINALS + REC_TERMINALS:
+        if inner["op"] in ("eval", "set", "get") and inner.get("terminal") not in slow:
             op["nested"] = inner
         else:
             op.pop("reenter_at")
